@@ -115,6 +115,30 @@ Theorem md_not_after_current_month : forall cy cm cd m d zm zd s1,
 Proof. exact parse_md_spelled. Qed.
 Print Assumptions md_not_after_current_month.
 
+(* a user-supplied --input-date-format built from %Y %m %d %% and literal (non-blank) characters,
+   containing all of %Y %m %d, reads back exactly the day that the same format prints *)
+Theorem custom_format_roundtrip : forall raw cur y m d w,
+  Forall in_item_ok (lex_fmt raw) ->
+  has_dir 89 (lex_fmt raw) = true -> has_dir 109 (lex_fmt raw) = true -> has_dir 100 (lex_fmt raw) = true ->
+  valid_ymd y m d -> 1400 <= y <= 9999 ->
+  format_date raw (boost_day_number y m d) = Some w ->
+  parse_date [raw] cur w = DOk (boost_day_number y m d).
+Proof. exact parse_custom_roundtrip. Qed.
+Print Assumptions custom_format_roundtrip.
+
+(* the hypotheses are satisfiable: %d.%m.%Y *)
+Example custom_format_example :
+  let raw := [37; 100; 46; 37; 109; 46; 37; 89] in
+  Forall in_item_ok (lex_fmt raw) /\ has_dir 89 (lex_fmt raw) = true /\ has_dir 109 (lex_fmt raw) = true /\
+  has_dir 100 (lex_fmt raw) = true /\
+  format_date raw (boost_day_number 2024 2 29) = Some [50; 57; 46; 48; 50; 46; 50; 48; 50; 52] /\
+  parse_date [raw] (2021, 6, 15) [50; 57; 46; 48; 50; 46; 50; 48; 50; 52] = DOk (boost_day_number 2024 2 29).
+Proof.
+  cbn zeta. split.
+  - repeat match goal with |- Forall _ _ => constructor end; cbn; try reflexivity; lia.
+  - vm_compute. repeat split.
+Qed.
+
 (* ---- soundness: whatever is accepted is a real calendar day of 1400..9999, and the input is
    exactly one of its spellings: YYYY/M/D, YYYY/M (first of the month), or M/D with the year
    inferred.  No string with trailing characters, month 13, day 32, 30 February ... has such a
